@@ -108,8 +108,9 @@ func (v *VerifC12) TakeReads() int {
 	if len(v.taken) > 0 {
 		return -1
 	}
-	reqs := v.rq.get()
-	v.taken = append([]*RequestState{}, reqs...)
+	// the slice returned by get() is one of the queue's two reusable buffers;
+	// it is handed to pendingReadIndex.add as it is, as node.handleReadIndex does
+	v.taken = v.rq.get()
 	return len(v.taken)
 }
 
